@@ -435,7 +435,10 @@ def main():
     try:
         cv_path = os.path.join(BUILD, "site_coverage.json")
         cur = json.load(open(os.path.join(BUILD, "gen_status.json"))).get("repo_hash")
-        if not os.path.exists(cv_path) or json.load(open(cv_path)).get("repo_hash") != cur:
+        sys.path.insert(0, os.path.join(VERIF, "gen"))
+        import coverage as _cov
+        old = json.load(open(cv_path)) if os.path.exists(cv_path) else {}
+        if old.get("repo_hash") != cur or old.get("tool_hash") != _cov.tool_hash():
             sh([sys.executable, os.path.join(VERIF, "gen", "coverage.py")], env=dict(os.environ, ELFIO_REPO=REPO))
         cv = json.load(open(cv_path))
         pre = tuple(getattr(fam, "SITES", []) or [""])
